@@ -13,11 +13,16 @@ RULE = ("harness c12: (i) formula records 120xx/121xx: every translated public *
         "formula GENERATED from the same source; (ii) exact-window records 125xx/126xx: the operation runs with a scratch of "
         "EXACTLY tmp_bytes bytes at a 64-aligned address inside a canary-filled allocation, the observed panic class "
         "(none / 'Attempted to take' / 'scratch.available() <') must equal fail_kind of the hand-written take tree; "
-        "(iii) independence records 127xx/128xx (extra phase): two different garbage fills, outputs compared byte for byte; this phase also "
-        "runs the operations that have no take tree (oracle only): key/matrix encryption routines, GGSW key-switch / automorphism / expansion, "
-        "automorphism-key automorphism, LWE key-switch and LWE<->GLWE conversions, glwe_pack, tensor relinearize / square / add_assign, "
-        "mul_plain(_assign), mul_const_assign, 14 CKKS leveled operations (reference backends) and CGGI blind rotation (key encryption, "
-        "preparation, execute). "
+        "(iii) independence records 127xx/128xx (extra phase): two different garbage fills, outputs compared byte for byte, with operand "
+        "shapes in which every temporary is only PARTIALLY overwritten by the inputs (plaintext container shorter / longer than the "
+        "ciphertext, result shorter / longer than the operands and than the key, ranks 0..3, cross radix); this phase also runs the "
+        "operations that have no take tree (oracle only): automorphism-key automorphism, tensor add_assign, mul_plain(_assign), "
+        "mul_const_assign, 20 CKKS leveled operations incl. the composites (mul_add / mul_sub / dot_product / mul_many / add_many; "
+        "reference backends), CGGI blind rotation (key encryption, preparation, execute), circuit bootstrapping (constant and exponent "
+        "mode), cmux / cmux_assign / cmux_assign_neg, fhe_uint preparation (prepare_custom and prepare_custom_multi_thread with 1..3 "
+        "threads on exactly threads * fhe_uint_prepare_tmp_bytes bytes). Modelled with take trees since the deepening: LWE key-switch and "
+        "LWE<->GLWE conversions, glwe_pack, GGSW key-switch / automorphism / expansion, tensor relinearize / square, the nine key / "
+        "matrix encryption routines and the seven seeded (compressed) encryptions. "
         "distinct = distinct (op, backend, shape)")
 ASSUMPTIONS = [
     "take trees are hand transcriptions of the Rust control flow; they are tied to the implementation by the exact-window "
@@ -49,8 +54,13 @@ OPN = {1: "vec_znx_normalize", 2: "vec_znx_normalize_assign", 3: "vec_znx_rsh", 
        151: "glwe_mul_const_assign", 152: "glwe_tensor_apply_add_assign",
        160: "ckks_encrypt_sk", 161: "ckks_decrypt", 162: "ckks_add", 163: "ckks_mul", 164: "ckks_square", 165: "ckks_mul_pt_vec_znx",
        166: "ckks_rescale", 167: "ckks_rotate", 168: "ckks_conjugate", 169: "ckks_mul_pow2", 170: "ckks_div_pow2",
-       171: "ckks_add_pt_vec_znx", 172: "ckks_neg", 173: "ckks_align",
-       180: "blind_rotation_key_encrypt_sk", 181: "blind_rotation_key_prepare", 182: "blind_rotation_execute"}
+       171: "ckks_add_pt_vec_znx", 172: "ckks_neg", 173: "ckks_align", 174: "ckks_sub", 175: "ckks_mul_add_ct",
+       176: "ckks_mul_sub_ct", 177: "ckks_dot_product_ct", 178: "ckks_mul_many", 179: "ckks_add_many",
+       180: "blind_rotation_key_encrypt_sk", 181: "blind_rotation_key_prepare", 182: "blind_rotation_execute",
+       183: "circuit_bootstrapping_execute", 184: "cmux", 185: "fhe_uint_prepare_custom", 186: "fhe_uint_prepare_custom_multi_thread",
+       190: "glwe_compressed_encrypt_sk", 191: "gglwe_compressed_encrypt_sk", 192: "ggsw_compressed_encrypt_sk",
+       193: "glwe_switching_key_compressed_encrypt_sk", 194: "glwe_automorphism_key_compressed_encrypt_sk",
+       195: "glwe_tensor_key_compressed_encrypt_sk", 196: "gglwe_to_ggsw_key_compressed_encrypt_sk"}
 
 
 def _parse(record):
